@@ -287,3 +287,14 @@ def big_cases(r):
         out.append(((1 << 32) - 1, f))
         out.append(((1 << 24) + 2, f))
     return out
+
+
+def preamble_floods(r):
+    """buffers in which one scanner call steps over 10^5 complete candidates that fail their checksum before
+    it reaches a valid frame (or the end): depth of recursion / work per call, not content"""
+    f = mk_frame(payload_for(r, 19, r.choice(SUPPORTED)))
+    out = []
+    for unit, n in ((b"\xd3\x00\x00", 150000), (b"\xd3\x00\x01\x55", 100000), (b"\xd3\x00\x00\xd3\x00\x02\x00", 60000)):
+        out.append(unit * n + f)
+        out.append(unit * n)
+    return out
